@@ -630,7 +630,17 @@ def gen_tiny_branch(rng, nmax=9):
             tr.reverse()
         tl.append(tr)
         r = rng.random()
-        if r < 0.3:          # one more hop in front of the tiny state
+        if r >= 0.8:
+            # a probabilistic state whose dead successor carries almost all the mass: the survivors (1e-13 .. 1e-10 each) must be
+            # rescaled by THEIR sum; "1 - removed" cancels catastrophically here
+            a1 = len(players); players.append(PR); rewards.append(F(rng.randint(100, 2000))); tl.append([(F(1), f)])
+            a2 = len(players); players.append(PR); rewards.append(F(rng.randint(1, 50))); tl.append([(F(1), f)])
+            pa, pb = rng.choice([(F(2, 10 ** 13), F(6, 10 ** 13)), (F(1, 10 ** 12), F(3, 10 ** 12)), (F(1, 10 ** 10), F(1, 10 ** 11))])
+            t = len(players)
+            tr = [(pa, a1), (pb, a2), (1 - pa - pb, z)]
+            rng.shuffle(tr)
+            players.append(PR); rewards.append(F(rng.randint(0, 9))); tl.append(tr)
+        elif r < 0.3:          # one more hop in front of the tiny state
             t2 = len(players)
             players.append(rng.choice([PR, P1])); rewards.append(F(rng.randint(0, 9)))
             tl.append([(F(1), t)] if players[-1] == PR else [("a", t)])
@@ -799,6 +809,27 @@ def gen_aux_fast(rng):
     return renumber_random(rng, gd)
 
 
+def gen_dup_labels(rng, nmax=10):
+    """Player states in which two or more transitions carry the SAME action label (nothing forbids it): the label then stands for
+    all of them.  Built from a random stopping game by re-labelling."""
+    gd = gen_acy(rng, nmax=nmax, max_out=4) if rng.random() < 0.6 else (gen_cyc(rng, nmax=nmax, max_out=4) or gen_acy(rng, nmax=nmax))
+    tl = []
+    changed = False
+    for s, tr in enumerate(gd["transition_list"]):
+        if gd["players"][s] != PR and len(tr) >= 2 and rng.random() < 0.7:
+            tr = list(tr)
+            i, j = rng.sample(range(len(tr)), 2)
+            tr[j] = (tr[i][0], tr[j][1])
+            if len(tr) >= 3 and rng.random() < 0.3:
+                k = rng.choice([x for x in range(len(tr)) if x not in (i, j)])
+                tr[k] = (tr[i][0], tr[k][1])
+            changed = True
+        tl.append(list(tr))
+    out = dict(gd)
+    out["transition_list"] = tl
+    return out if changed else None
+
+
 def gen_no_reach(rng):
     """No non-final state can reach a final state: the finals are isolated (or every state is final)."""
     gd = gen_acy(rng, nmax=8) if rng.random() < 0.5 else (gen_cyc(rng, nmax=8) or gen_acy(rng, nmax=8))
@@ -861,6 +892,8 @@ def gen_class(rng, cls, **kw):
         return gen_reward_near(rng)
     if cls == "G-AUXFAST":
         return gen_aux_fast(rng)
+    if cls == "G-DUPL":
+        return gen_dup_labels(rng)
     if cls == "G-NOREACH":
         return gen_no_reach(rng)
     if cls == "G-TINYB":
